@@ -89,7 +89,9 @@ class Module:
         if os.environ.get("VERIF_NO_INLINE") != "1" and \
                 rel.split("/")[0] in ("core", "model", "codec"):
             from . import inline
-            self.tree, self.inlined = inline.inline_helpers(self.tree)
+            ment = getattr(Module, "_mentions", {})
+            self.tree, self.inlined = inline.inline_helpers(
+                self.tree, lambda nm: ment.get(nm, {rel}) <= {rel})
         if os.environ.get("VERIF_NO_CANON") != "1":
             from . import canon
             self.tree = canon.normalise(self.tree)
@@ -212,6 +214,21 @@ class Program:
 
     # -- loading -----------------------------------------------------------
     def _load(self):
+        srcs = {}
+        for dirpath, dirnames, filenames in os.walk(self.root):
+            dirnames[:] = sorted(d for d in dirnames
+                                 if d != "__pycache__" and not d.startswith("."))
+            for fn in sorted(filenames):
+                if fn.endswith(".py"):
+                    path = os.path.join(dirpath, fn)
+                    with open(path, encoding="utf-8") as f:
+                        srcs[os.path.relpath(path, self.root)] = f.read()
+        import re as _re
+        mentions = {}
+        for rel, src in srcs.items():
+            for nm in set(_re.findall(r"(?<![A-Za-z0-9_])(_[A-Za-z][A-Za-z0-9_]*)", src)):
+                mentions.setdefault(nm, set()).add(rel)
+        Module._mentions = mentions
         for dirpath, dirnames, filenames in os.walk(self.root):
             dirnames[:] = sorted(d for d in dirnames
                                  if d != "__pycache__" and not d.startswith("."))
